@@ -215,6 +215,37 @@ theorem wake_up_makes_progress (s : St) (now : Nat) (rearm : List (Conn × Nat))
     have := tick_handles_expired s now rearm hr e he
     omega
 
+/-- **One deadline per connection** (the model's list stands for the `HashMap<ConnectionId, Instant>`):
+after every history no connection id is armed twice, so a re-armed or removed connection leaves no
+stale second deadline behind that could wake the loop for a connection that is gone -/
+theorem one_deadline_per_connection (ops : List Op) : Keyed (run {} ops).deadlines :=
+  keyed_run {} ops (by simp [Keyed])
+
+/-- processing a datagram of a connection replaces its deadline: afterwards the connection's only
+deadline is the new one ... -/
+theorem arm_replaces (s : St) (c : Conn) (t : Nat) :
+    (c, t) ∈ (step s (.arm c t)).deadlines ∧ ∀ u, (c, u) ∈ (step s (.arm c t)).deadlines → u = t :=
+  ⟨mem_put_self _ _ _, fun _ h => put_key_unique _ _ _ _ h⟩
+
+/-- ... and a removed connection (handshake completed, connection closed) has none: the loop is not
+woken for it again unless a later datagram re-arms it -/
+theorem removed_has_no_deadline (s : St) (c : Conn) (u : Nat) : (c, u) ∉ (step s (.remove c)).deadlines := by
+  intro h
+  simp only [step] at h
+  have := (List.mem_filter.1 h).2
+  simp at this
+
+/-- a connection's passed deadline handled by a loop iteration does not survive it unless the
+connection's next timer was armed: with nothing to re-arm, no connection whose deadline had passed is
+still armed -/
+theorem tick_without_rearm_drops_expired (s : St) (now : Nat) (c : Conn) (u : Nat) (hu : u ≤ now) :
+    (c, u) ∉ (step s (.tick now [])).deadlines := by
+  intro h
+  simp only [step, List.foldl_nil] at h
+  have := (List.mem_filter.1 h).2
+  simp only [Bool.not_eq_eq_eq_not, Bool.not_true, decide_eq_false_iff_not, Nat.not_le] at this
+  omega
+
 example :
     let ops := [Op.arm "a" 100, .arm "b" 50, .tick 60 [("b", 90)], .remove "b", .arm "a" 300, .tick 100 [], .tick 400 []]
     (run {} (ops.take 2)).closest = some 50
